@@ -151,11 +151,7 @@ def check_table(R, ok):
         want = spec_action(case["it"], case["lkj"], case["has_det"], case["reg"], case["support_real"], case["mode"], case["median"],
                            case["mean"], case["has_rsample"])
         if act != want:
-            pattern = "none"
-            if case["mean"] == "raise-notimpl" and want.endswith("-n-mean") and act == "raise-notimpl":
-                pattern = "mean-fallback-unreachable"
-            R.oracle_fail("interact:mean-fallback" if pattern != "none" else "interact:table", case, {"code": act, "contract": want},
-                          {"check": "interact-table", "pattern": pattern})
+            R.oracle_fail("interact:table", case, {"code": act, "contract": want}, {"check": "interact-table", "pattern": "none"})
         if m is not None and m != act:
             R.mismatch("model-vs-code:_dist_sample", case, act, m)
         R.traces += 1
